@@ -430,12 +430,101 @@ theorem constructPasses_nil (prov : Nat → List Nat) (entries : List (Src × Bo
   unfold constructPasses
   cases construct prov (entries.map fun en => (en.1, en.2.1)) <;> simp
 
+/-- one guard of the loop, on its own -/
+def okLib (S : Sem) (ρ : Env) (g : Guard) : Bool :=
+  (evalLib S ρ false g.e).val.map truthy == some g.expected
+
+/-- the guard loop lets the transition through iff every guard of the list holds -/
+theorem allLib_true_iff (S : Sem) (ρ : Env) (l : List Guard) :
+    (allLib S ρ l).val = some true ↔ ∀ g ∈ l, okLib S ρ g = true := by
+  induction l with
+  | nil => simp [allLib]
+  | cons g gs ih =>
+    simp only [allLib, List.mem_cons, forall_eq_or_imp, okLib]
+    cases h : (evalLib S ρ false g.e).val with
+    | none => simp
+    | some v =>
+      by_cases hv : truthy v = g.expected
+      · simp [hv, ih, okLib]
+      · simp [hv]
+
+theorem mem_addNew (acc new : List Guard) (g : Guard) : g ∈ addNew acc new ↔ g ∈ acc ∨ g ∈ new := by
+  induction new generalizing acc with
+  | nil => simp [addNew]
+  | cons x xs ih =>
+    simp only [addNew]
+    split
+    · rename_i hc
+      rw [ih]
+      have : x ∈ acc := by simpa using hc
+      constructor
+      · rintro (h | h)
+        · exact Or.inl h
+        · exact Or.inr (List.mem_cons_of_mem _ h)
+      · rintro (h | h)
+        · exact Or.inl h
+        · rcases List.mem_cons.mp h with rfl | h
+          · exact Or.inl this
+          · exact Or.inr h
+    · rw [ih]
+      simp [or_assoc]
+
+/-- nothing is ever removed by an attachment, and what is there stays in front, in order -/
+theorem addNew_prefix (acc new : List Guard) : ∃ more, addNew acc new = acc ++ more := by
+  induction new generalizing acc with
+  | nil => exact ⟨[], by simp [addNew]⟩
+  | cons x xs ih =>
+    simp only [addNew]
+    split
+    · exact ih acc
+    · obtain ⟨m, hm⟩ := ih (acc ++ [x])
+      exact ⟨x :: m, by rw [hm]; simp⟩
+
+/-- **re-attachment does not change what is decided**: ignoring the entries whose key was seen gives the same
+verdict as keeping them all ("attaching the same listener again never duplicates its calls" costs nothing) -/
+theorem addNew_enabled (S : Sem) (ρ : Env) (acc new : List Guard) :
+    (allLib S ρ (addNew acc new)).val = some true ↔ (allLib S ρ (acc ++ new)).val = some true := by
+  simp only [allLib_true_iff, mem_addNew, List.mem_append]
+
+/-- the guards after the late passes, as a set: those of the constructor and those every pass resolves -/
+theorem mem_passes (gs : List Guard) (lates : List (Nat → List Nat)) (entries : List (Src × Bool × Bool)) (g : Guard) :
+    g ∈ lates.foldl (fun acc p => addNew acc (lateGuards p entries)) gs ↔
+      g ∈ gs ∨ ∃ p ∈ lates, g ∈ lateGuards p entries := by
+  induction lates generalizing gs with
+  | nil => simp
+  | cons p ps ih =>
+    simp [ih, mem_addNew, or_assoc]
+
 /-- a late pass never turns a constructible machine into an error, and never removes a guard -/
 theorem constructPasses_ok (prov : Nat → List Nat) (lates : List (Nat → List Nat)) (entries : List (Src × Bool × Bool))
     (gs : List Guard) (h : construct prov (entries.map fun en => (en.1, en.2.1)) = .ok gs) :
-    constructPasses prov lates entries = .ok (gs ++ lates.flatMap fun p => lateGuards p entries) := by
+    constructPasses prov lates entries = .ok (lates.foldl (fun acc p => addNew acc (lateGuards p entries)) gs) := by
   unfold constructPasses
   rw [h]
+
+/-- **C12 (several providers, attachment by attachment).** After any number of attachment passes the transition is
+enabled iff the constructor's guards hold and, for every pass, the guards that pass resolves hold over its own
+providers — whether or not a pass repeats an earlier one. -/
+theorem C12_passes_enabled (S : Sem) (ρ : Env) (gs : List Guard) (lates : List (Nat → List Nat))
+    (entries : List (Src × Bool × Bool)) :
+    (allLib S ρ (lates.foldl (fun acc p => addNew acc (lateGuards p entries)) gs)).val = some true ↔
+      (allLib S ρ gs).val = some true ∧ ∀ p ∈ lates, (allLib S ρ (lateGuards p entries)).val = some true := by
+  simp only [allLib_true_iff, mem_passes]
+  constructor
+  · intro h
+    exact ⟨fun g hg => h g (Or.inl hg), fun p hp g hg => h g (Or.inr ⟨p, hp, hg⟩)⟩
+  · rintro ⟨h1, h2⟩ g (hg | ⟨p, hp, hg⟩)
+    · exact h1 g hg
+    · exact h2 p hp g hg
+
+/-- attaching the same providers again adds nothing -/
+theorem addNew_idem (acc new : List Guard) (h : ∀ g ∈ new, g ∈ acc) : addNew acc new = acc := by
+  induction new with
+  | nil => simp [addNew]
+  | cons x xs ih =>
+    have hx : acc.contains x = true := by simpa using h x (List.mem_cons_self ..)
+    simp only [addNew, hx, if_true]
+    exact ih (fun g hg => h g (List.mem_cons_of_mem _ hg))
 
 /-- an entry some name of which the pass does not provide contributes nothing in that pass -/
 theorem lateGuards_unknown (prov : Nat → List Nat) (e : E) (x : Bool) (h : (unknowns prov e).isEmpty = false) :
